@@ -1,4 +1,4 @@
-//@ unit u7_serving props C08
+//@ unit u7_serving props C08 also C06
 // Unit U7: the serving side of the synchronisation protocol (src/synchronisation/peer_outbound_service.rs).
 // Every call that serves room data is preceded by a woven assertion that the requested room is in the set of rooms
 // this connection may read; that set is filled only from the authenticated key's memberships.
@@ -67,6 +67,18 @@ impl AtomicBool {
     pub fn load(&self, o: Ordering) -> (r: bool) ensures r == self.val() { unimplemented!() }
 }
 
+pub mod security {
+    use vstd::prelude::*;
+    /// blake3::derive_key (key-derivation mode; separated by construction from the plain hash mode that digests rows: ASSUMED)
+    pub uninterp spec fn spec_derive(context: Seq<char>, key_material: Seq<u8>) -> Seq<u8>;
+    #[verifier::external_body]
+    pub fn derive_key(context: &str, key_material: &[u8]) -> (r: [u8; 32]) ensures r@ == spec_derive(context@, key_material@) { unimplemented!() }
+}
+pub assume_specification<T: Clone>[ <[T]>::to_vec ](s: &[T]) -> (r: Vec<T>) ensures r@ == s@;
+//@ extract src/synchronisation/mod.rs :: const IDENTITY_CHALLENGE_CONTEXT
+//@ end
+pub open spec fn identity_message(challenge: Seq<u8>) -> Seq<u8> { security::spec_derive(IDENTITY_CHALLENGE_CONTEXT@, challenge) }
+//@ use-contract u10_handshake.rs :: identity_challenge_message
 /// the database service: every method that serves data of a room takes the room id first.
 /// A request kind that calls a method not listed here does not type-check (exit 2), so it cannot slip past unguarded.
 pub struct GraphDatabaseService { x: u8 }
@@ -74,9 +86,12 @@ pub type DbResult<T> = std::result::Result<T, crate_error::Error>;
 impl GraphDatabaseService {
     /// ghost: the rooms of which `key` is a member now (unit u2_verdicts proves rooms_for_peer returns exactly these)
     pub uninterp spec fn member_rooms(&self, key: Seq<u8>) -> Set<Uid>;
-    // not room data: signing a challenge, the local peer row
+    // not room data: signing for the identity challenge, the local peer row
     #[verifier::external_body]
-    pub async fn sign(&self, data: Vec<u8>) -> (r: (Vec<u8>, Vec<u8>)) { unimplemented!() }
+    pub async fn sign(&self, data: Vec<u8>) -> (r: (Vec<u8>, Vec<u8>))
+        // [remote_chosen_bytes_never_signed_raw]{C06} what the serving side signs with the user's key is the derived identity message of some challenge - never bytes chosen by the remote peer, which could be the digest of a row the user did not author
+        requires exists|ch: Seq<u8>| data@ == identity_message(ch),
+    { unimplemented!() }
     #[verifier::external_body]
     pub async fn get_peer_node(&self, key: Vec<u8>) -> (r: DbResult<Option<Opaque>>) ensures r is Ok ==> r->Ok_0 is Some { unimplemented!() }
     // the membership source
